@@ -47,3 +47,17 @@ reg("C07", "^TestC07$", q=(40, 4, 900), t=(400, 16, 3600), batch=40, level="faul
          "and the remaining blocks every table, query, root and proof equals a fault-free twin.",
     note="Trusted: SQLite crash atomicity (a kill inside a transaction = rollback); the twin run; DELETEs matching no row cannot be failed.",
     design="§3 C07")
+
+reg("C08", "^TestC08$", q=(200, 4, 900), t=(1000, 16, 3600), batch=200,
+    technique="property-based testing: rapid-generated tree contents (with reorgs and restarts); every (recorded root, position) pair for small trees, sampled for large; oracle = reference verifyMerkleProof recomputation and reference roots",
+    text="Exploration: proofs and leaf look-ups served by the real stores for the exit tree, L1 info tree and rollup exit tree "
+         "are recomputed with the reference verifier and must hit exactly the requested (historical) root, which must equal the reference root of that version.",
+    note="Trusted: ref.VerifyProof / ref.Frontier / ref.Sparse (mirrors of the contracts, self-checked and tied to the real contract in C01/C11 EVM legs).",
+    design="§3 C08")
+
+reg("C14", "^TestC14$", q=(150, 4, 900), t=(1000, 16, 3600), batch=150,
+    technique="property-based testing: rapid-generated halting histories and reorg points; entry points enumerated by reflection; oracle = explicit ErrInconsistentState + zero data while halted, cleared only by a row-deleting reorg",
+    text="Exploration: every exported error-returning method of *BridgeSync and *L1InfoTreeSync (reflection, so new entry points are "
+         "included) is called while the real processor is halted by a generated inconsistency; reorg points decide whether the halt must persist or clear.",
+    note="Trusted: reflection-based argument synthesis (a parameter type without a pool makes the harness fail loudly); GetLastReorgEvent excluded by name (reads the reorg detector, not the store).",
+    design="§3 C14")
